@@ -1177,6 +1177,8 @@ class Gen:
         orderby = ()
         if 'orderby' in shape:
             pool = list(groupby) if groupby else cols
+            if groupby and rng.random() < 0.4:  # a grouped statement may be ordered by an aggregate it does not select
+                pool = pool + [self.aggregate(env, scope, 'Numeric', 0)]
             orderby = tuple((f, rng.choice(('asc', 'desc'))) for f in rng.sample(pool, min(len(pool), rng.choice((1, 2)))))
         rows = (rng.choice((0, 1, 3, 10)), rng.choice((0, 0, 2))) if 'rows' in shape else None
         return ('query', source, tuple(select), where, tuple(groupby), having, orderby, rows)
